@@ -316,6 +316,41 @@ def run(prop, tier, seed, known):
                             bound='%d annotations x all non-decreasing sample tuples (<=3) on the lattice; 4 sample grids' % len(anns), cases=n, exhaustive=True,
                             failures=fails[:3], wall_s=round(time.time() - t0, 2)))
         all_fails += fails
+        # ---- chord.merge_chord_intervals: the merged intervals are the maximal runs of consecutive intervals that carry the same chord
+        # (root, reduced semitone bitmap AND bass), over the same span
+        t0 = time.time()
+        fails, n = [], 0
+        from mir_eval import chord as _chord
+        import random as _random
+        rngc = _random.Random(11)
+        clabs = ['C:maj', 'C:maj/3', 'C:maj/5', 'C:min', 'C:min/b3', 'N', 'X', 'C:maj7', 'C:7', 'E:7/3', 'E:7', 'G:maj', 'G:maj(9)', 'G:9', 'C', 'B#:maj', 'A:min7', 'A:min7/b7']
+        encs = {l: _chord.encode(l, True) for l in clabs}
+        same = lambda a, b: int(encs[a][0]) == int(encs[b][0]) and list(encs[a][1]) == list(encs[b][1]) and int(encs[a][2]) == int(encs[b][2])
+        for _ in range(300):
+            k = rngc.randint(1, 6)
+            cuts = sorted(rngc.sample([0.25 * x for x in range(1, 40)], k - 1)) if k > 1 else []
+            b = [0.0] + cuts + [10.0]
+            iv = [[b[i], b[i + 1]] for i in range(k)]
+            pool_ = rngc.sample(clabs, 3)
+            labs = [rngc.choice(pool_) for _ in range(k)]
+            n += 1
+            try:
+                got = _chord.merge_chord_intervals(np.array(iv), labs).tolist()
+            except Exception as ex:
+                fails.append('merge_chord_intervals raised %s on %s %s' % (type(ex).__name__, iv, labs))
+                continue
+            want = []
+            for (s_, e_), l in zip(iv, labs):
+                if want and same(want[-1][2], l):
+                    want[-1][1] = e_
+                else:
+                    want.append([s_, e_, l])
+            if got != [[a, b_] for a, b_, _l in want]:
+                fails.append('merge_chord_intervals(%s, %s) = %s, the runs of equal chords are %s' % (iv, labs, got, [[a, b_] for a, b_, _l in want]))
+        bounded.append(dict(name='chord.merge_chord_intervals: maximal runs of consecutive equal chords (root, bitmap and bass), same span',
+                            bound='300 random contiguous annotations (<=6 intervals) over 18 labels incl. inversions, enharmonic spellings, N and X', cases=n, exhaustive=False,
+                            failures=fails[:3], wall_s=round(time.time() - t0, 2)))
+        all_fails += fails
         # ---- boundaries <-> intervals
         t0 = time.time()
         fails, n = [], 0
